@@ -16,6 +16,7 @@ package main
 
 import (
 	"fmt"
+	"go/token"
 	"sort"
 
 	"golang.org/x/tools/go/ssa"
@@ -174,8 +175,18 @@ func ruleSticky(c *Ctx, pkgRel string, byValue map[string]string) *RuleResult {
 			}
 			var ws []ssa.Instruction
 			for _, x := range fn.Blocks {
-				if canReach[x] {
-					ws = append(ws, writesIn(x)...)
+				if !canReach[x] {
+					continue
+				}
+				for _, w := range writesIn(x) {
+					// a helper that reports whether it changed anything: `if step(...) { return true }`.
+					// When every path from the call to this return leaves the test of its result on the
+					// "false" side, and the helper writes nothing before any of its own `return false`,
+					// the call wrote nothing on the way here.
+					if call, isCall := w.(*ssa.Call); isCall && quietWhenFalse(c, E, call) && onlyViaFalse(x, call, b) {
+						continue
+					}
+					ws = append(ws, w)
 				}
 			}
 			if len(ws) == 0 {
@@ -245,4 +256,97 @@ func ruleSticky(c *Ctx, pkgRel string, byValue map[string]string) *RuleResult {
 	}
 	r.inst(fmt.Sprintf("%d iterators of package %s examined", len(fns), pkgRel))
 	return r
+}
+
+// quietWhenFalse: the callee is a module function with a single boolean result, all of whose returns
+// are constants, and no instruction on any path to one of its `return false` may write memory
+// reachable from its parameters.
+func quietWhenFalse(c *Ctx, E *Eff, call *ssa.Call) bool {
+	f := call.Call.StaticCallee()
+	if f == nil || !c.inModule(f) || f.Blocks == nil {
+		return false
+	}
+	res := f.Signature.Results()
+	if res.Len() != 1 || res.At(0).Type().String() != "bool" {
+		return false
+	}
+	for _, u := range E.UnknownOf(f) {
+		_ = u
+		return false
+	}
+	for _, b := range f.Blocks {
+		ret, ok := b.Instrs[len(b.Instrs)-1].(*ssa.Return)
+		if !ok {
+			continue
+		}
+		k, isK := constKey(ret.Results[0])
+		if !isK {
+			return false
+		}
+		if k != "false" {
+			continue
+		}
+		canReach := map[*ssa.BasicBlock]bool{b: true}
+		stack := []*ssa.BasicBlock{b}
+		for len(stack) > 0 {
+			x := stack[len(stack)-1]
+			stack = stack[:len(stack)-1]
+			for _, p := range x.Preds {
+				if !canReach[p] {
+					canReach[p] = true
+					stack = append(stack, p)
+				}
+			}
+		}
+		for _, x := range f.Blocks {
+			if !canReach[x] {
+				continue
+			}
+			for _, in := range x.Instrs {
+				for _, ap := range E.InstrWrites(f, in) {
+					if ap.Root >= 0 && ap.Root < rFree {
+						return false
+					}
+				}
+			}
+		}
+	}
+	return true
+}
+
+// onlyViaFalse: block x ends in a test of the call's result and the return block ret is not reachable
+// from the side of that test on which the result is true.
+func onlyViaFalse(x *ssa.BasicBlock, call *ssa.Call, ret *ssa.BasicBlock) bool {
+	iff, ok := x.Instrs[len(x.Instrs)-1].(*ssa.If)
+	if !ok {
+		return false
+	}
+	cond, trueSide := iff.Cond, 0
+	for {
+		if u, isNot := cond.(*ssa.UnOp); isNot && u.Op == token.NOT {
+			cond, trueSide = u.X, 1-trueSide
+			continue
+		}
+		break
+	}
+	if cond != ssa.Value(call) {
+		return false
+	}
+	seen := map[*ssa.BasicBlock]bool{}
+	stack := []*ssa.BasicBlock{x.Succs[trueSide]}
+	seen[x.Succs[trueSide]] = true
+	for len(stack) > 0 {
+		y := stack[len(stack)-1]
+		stack = stack[:len(stack)-1]
+		if y == ret {
+			return false
+		}
+		for _, s := range y.Succs {
+			if !seen[s] {
+				seen[s] = true
+				stack = append(stack, s)
+			}
+		}
+	}
+	return true
 }
